@@ -1235,6 +1235,13 @@ class Interp:
             r = (a is b) or (isinstance(a, EnumMember) and isinstance(b, EnumMember) and a == b and a.cls is b.cls)
             if a is None or b is None:
                 r = a is b
+
+            def tyname(x):
+                if isinstance(x, type):
+                    return "builtins." + x.__name__
+                return x.path if isinstance(x, ExtRef) and x.path.startswith("builtins.") else None
+            if not r and tyname(a) is not None and tyname(a) == tyname(b):
+                r = True
             return r if name == "Is" else not r
         if name in ("In", "NotIn"):
             r = self.contains(b, a, node)
@@ -1472,9 +1479,11 @@ class Interp:
                     v = np.empty(shp, dtype=object)
                     for j, i in enumerate(np.ndindex(*shp)):
                         v[i] = alg.sym(f"havoc{k}[{j}]")
-                self.havocs.append((k, v if not isinstance(v, np.ndarray) else v.copy(), self.loc(n) if n is not None else ""))
+                self.havocs.append((k, v if not isinstance(v, np.ndarray) else v.copy(), self.loc(n) if n is not None else "", base, idx))
                 return v
             return self.opaque("subscript with a data-dependent (opaque) index", n)
+        if isinstance(idx, SymIdx) and isinstance(base, SymIdx):
+            return SymIdx("compose", (base, idx))
         if isinstance(idx, SymIdx) and isinstance(base, (np.ndarray, SymArr)):
             return SymArr("take", (base if isinstance(base, SymArr) else base, idx))
         if isinstance(base, SymArr):
@@ -1543,7 +1552,8 @@ class Interp:
                 if attr == "__class__":
                     return base.cls
                 if attr == "__dataclass_fields__":
-                    return {f[0]: Record(None, {"type": f[1], "default": f[2], "name": f[0]}, label="Field")
+                    return {f[0]: Record(None, {"type": self.ev(f[1], Env(f[3].module)), "default": self.ev(f[2], Env(f[3].module)) if f[2] is not None else UNINIT,
+                                                "name": f[0]}, label="Field")
                             for f in self.dataclass_fields(base.cls)}
                 try:
                     v = self.class_attr(base.cls, attr)
